@@ -22,6 +22,7 @@ var checks = map[string]func(tier string) int{
 	"C12": props.CheckC12,
 	"C13": props.CheckC13,
 	"C14": props.CheckC14,
+	"C15": props.CheckC15,
 }
 
 func main() {
